@@ -1,7 +1,9 @@
 // C08 — RTPS messages round-trip through their wire encoding.
 // Per submessage kind: value with symbolic fields built by the real constructor -> real container
 // RtpsMessageWrite::new (Cursor<Vec<u8>>, write_submessage_into_bytes, back-patched length) ->
-// real parser RtpsMessageRead::try_from -> equality of the RTPS header and of every field, and
+// real decoders (HEARTBEAT and the big-endian images: the whole parser RtpsMessageRead::try_from;
+// other kinds: SubmessageHeaderRead::try_read_from_bytes + the kind's try_from_bytes, the two calls
+// of the dispatcher arm) -> equality of the RTPS header bytes and of every field, and
 // octetsToNextHeader in the bytes == number of element bytes that follow.
 //
 // Tractability notes (measured): the container builds the message in a growing heap Vec whose
@@ -17,8 +19,8 @@ use alloc::vec::Vec;
 
 use super::support_msg::*;
 
-use crate::rtps_messages::overall_structure::{RtpsMessageRead, RtpsSubmessageReadKind};
-use crate::rtps_messages::submessage_elements::{Data, Parameter, ParameterList, SerializedDataFragment};
+use crate::rtps_messages::overall_structure::{Endianness, RtpsMessageRead, RtpsSubmessageReadKind, TryReadFromBytes};
+use crate::rtps_messages::submessage_elements::{Data, Parameter, ParameterList, SequenceNumberSet, SerializedDataFragment};
 use crate::rtps_messages::submessages::{
     ack_nack::AckNackSubmessage, data::DataSubmessage, data_frag::DataFragSubmessage, gap::GapSubmessage,
     heartbeat::HeartbeatSubmessage, heartbeat_frag::HeartbeatFragSubmessage,
@@ -81,7 +83,7 @@ fn c08_heartbeat_other_flags() {
 // @desc HEARTBEAT_FRAG, INFO_DST, INFO_SRC, PAD: every field symbolic (sequence number full i64, fragment number full u32, count full i32, guid prefix / version / vendor bytes) round-trips; octetsToNextHeader = 24 / 12 / 20 / 0
 // @bounds fields over their full machine domain; messages 48 / 36 / 44 / 24 bytes; unwind 52
 // @enc rtps_messages::overall_structure::RtpsMessageWrite::new
-// @enc rtps_messages::overall_structure::RtpsMessageRead::try_from
+// @enc rtps_messages::overall_structure::SubmessageHeaderRead::try_read_from_bytes
 // @enc rtps_messages::submessages::heartbeat_frag::HeartbeatFragSubmessage::try_from_bytes
 // @enc rtps_messages::submessages::info_destination::InfoDestinationSubmessage::try_from_bytes
 // @enc rtps_messages::submessages::info_source::InfoSourceSubmessage::try_from_bytes
@@ -151,7 +153,7 @@ fn c08_fixed_size_kinds() {
 // @desc INFO_TS with a timestamp (seconds and fraction over the full u32 range) and with the invalidate flag (no timestamp on the wire, decodes to TIME_INVALID) round-trips; octetsToNextHeader = 8 / 0
 // @bounds timestamp symbolic; both flag values; messages 32 / 24 bytes; unwind 36
 // @enc rtps_messages::overall_structure::RtpsMessageWrite::new
-// @enc rtps_messages::overall_structure::RtpsMessageRead::try_from
+// @enc rtps_messages::overall_structure::SubmessageHeaderRead::try_read_from_bytes
 // @enc rtps_messages::submessages::info_timestamp::InfoTimestampSubmessage::try_from_bytes
 #[kani::proof]
 #[kani::unwind(36)]
@@ -221,7 +223,7 @@ fn acknack_trip<const N: usize, const W: usize>(fin: bool, nb: u32) {
 // @bounds numBits = 34 concrete (so that the encoded length is concrete), membership of the 33 lower offsets symbolic, base any i64; message 56 bytes; unwind 60
 // @assume the set value is obtained from the real element decoder on a harness-written image (bits >= numBits clear, bit numBits-1 set: the shape SequenceNumberSet::new produces); SequenceNumberSet::new on a symbolic member list makes every encoder length symbolic and does not finish
 // @enc rtps_messages::overall_structure::RtpsMessageWrite::new
-// @enc rtps_messages::overall_structure::RtpsMessageRead::try_from
+// @enc rtps_messages::overall_structure::SubmessageHeaderRead::try_read_from_bytes
 // @enc rtps_messages::submessage_elements::SequenceNumberSet::write_into_bytes
 // @enc rtps_messages::submessages::ack_nack::AckNackSubmessage::try_from_bytes
 #[kani::proof]
@@ -235,7 +237,7 @@ fn c08_acknack() {
 // @bounds numBits in {0, 1, 32, 64}, membership symbolic; unwind 68
 // @assume set values obtained from the real element decoder (see c08_acknack)
 // @enc rtps_messages::overall_structure::RtpsMessageWrite::new
-// @enc rtps_messages::overall_structure::RtpsMessageRead::try_from
+// @enc rtps_messages::overall_structure::SubmessageHeaderRead::try_read_from_bytes
 #[kani::proof]
 #[kani::unwind(68)]
 fn c08_acknack_other_sizes() {
@@ -250,7 +252,7 @@ fn c08_acknack_other_sizes() {
 // @bounds numBits 256; message 80 bytes; unwind 260
 // @assume set values obtained from the real element decoder (see c08_acknack)
 // @enc rtps_messages::overall_structure::RtpsMessageWrite::new
-// @enc rtps_messages::overall_structure::RtpsMessageRead::try_from
+// @enc rtps_messages::overall_structure::SubmessageHeaderRead::try_read_from_bytes
 #[kani::proof]
 #[kani::unwind(260)]
 fn c08_acknack_256() {
@@ -286,7 +288,7 @@ fn gap_trip<const N: usize, const W: usize>(nb: u32) {
 // @bounds numBits = 41; message 60 bytes; unwind 64
 // @assume set values obtained from the real element decoder (see c08_acknack)
 // @enc rtps_messages::overall_structure::RtpsMessageWrite::new
-// @enc rtps_messages::overall_structure::RtpsMessageRead::try_from
+// @enc rtps_messages::overall_structure::SubmessageHeaderRead::try_read_from_bytes
 // @enc rtps_messages::submessages::gap::GapSubmessage::try_from_bytes
 #[kani::proof]
 #[kani::unwind(64)]
@@ -299,7 +301,7 @@ fn c08_gap() {
 // @bounds numBits in {0, 64}; unwind 68
 // @assume set values obtained from the real element decoder (see c08_acknack)
 // @enc rtps_messages::overall_structure::RtpsMessageWrite::new
-// @enc rtps_messages::overall_structure::RtpsMessageRead::try_from
+// @enc rtps_messages::overall_structure::SubmessageHeaderRead::try_read_from_bytes
 #[kani::proof]
 #[kani::unwind(68)]
 fn c08_gap_other_sizes() {
@@ -358,7 +360,8 @@ fn c08_nack_frag_high_base() {
 
 /// DATA round trip. `qos`: Some(value length) = inline QoS flag set with one parameter of that
 /// many (multiple of 4) symbolic value bytes; `P` payload bytes (symbolic); N = message size.
-fn data_trip<const N: usize, const P: usize>(qos: bool, d_flag: bool, k_flag: bool, n_flag: bool) {
+fn data_trip<const N: usize, const P: usize>(qos: bool, d_flag: bool, k_flag: bool, n_flag: bool) -> bool {
+    let mut extreme = false;
     let header = any_header();
     let pid: i16 = 0x0070; // PID_KEY_HASH; a symbolic id keeps the sentinel branch of the parameter reader alive and does not finish
     let pval: [u8; 4] = kani::any();
@@ -397,30 +400,40 @@ fn data_trip<const N: usize, const P: usize>(qos: bool, d_flag: bool, k_flag: bo
                 i += 1;
             }
             assert!(*d == s, "C08: DATA differs after the round trip");
-            if qos || !has_payload || P == 0 {
-                kani::cover!(d.writer_sn() == i64::MAX, "writer_sn = i64::MAX round-trips");
-            }
+            extreme = d.writer_sn() == i64::MAX;
             core::mem::forget(dd);
         }
         Err(_) => assert!(false, "C08: DATA produced by dust-dds is rejected by its own decoder"),
     }
     core::mem::forget(w);
+    extreme
 }
 
 // @check props=C08 tier=quick
-// @desc DATA without inline QoS (flags D) and a 5-byte payload (not a multiple of 4), and DATA with inline QoS (one parameter: id 0x0070, 4 symbolic value bytes), key flag, non-standard-payload flag and a 4-byte payload: flags, ids, writerSN (full i64), parameter and payload bytes round-trip; octetsToNextHeader = 20 [+ 12] + payload length
-// @bounds payload 5 / 4 symbolic bytes, <= 1 parameter of 4 bytes; messages 49 / 60 bytes; unwind 64
+// @desc DATA without inline QoS (flag D) and a 5-byte payload (not a multiple of 4): flags, ids, writerSN (full i64) and payload bytes round-trip; octetsToNextHeader = 20 + 5
+// @bounds payload 5 symbolic bytes; message 49 bytes; unwind 52
+// @enc rtps_messages::overall_structure::RtpsMessageWrite::new
+// @enc rtps_messages::submessages::data::DataSubmessage::try_from_bytes
+#[kani::proof]
+#[kani::unwind(52)]
+fn c08_data_payload() {
+    let e = data_trip::<49, 5>(false, true, false, false);
+    kani::cover!(e, "writer_sn = i64::MAX round-trips");
+}
+
+// @check props=C08 tier=quick
+// @desc DATA with inline QoS (one parameter: id 0x0070, 4 symbolic value bytes), key flag, non-standard-payload flag and a 4-byte payload: flags, ids, writerSN, parameter and payload bytes round-trip; octetsToNextHeader = 20 + 12 + 4
+// @bounds payload 4 symbolic bytes, 1 parameter of 4 bytes; message 60 bytes; unwind 64
 // @assume parameter id concrete (0x0070); parameter value length a multiple of 4 (values are padded on the wire otherwise)
 // @enc rtps_messages::overall_structure::RtpsMessageWrite::new
-// @enc rtps_messages::overall_structure::RtpsMessageRead::try_from
 // @enc rtps_messages::submessages::data::DataSubmessage::try_from_bytes
 // @enc rtps_messages::submessage_elements::ParameterList::write_into_bytes
 // @enc rtps_messages::submessage_elements::ParameterList::try_read_from_bytes
 #[kani::proof]
 #[kani::unwind(64)]
-fn c08_data() {
-    data_trip::<49, 5>(false, true, false, false);
-    data_trip::<60, 4>(true, false, true, true);
+fn c08_data_inline_qos() {
+    let e = data_trip::<60, 4>(true, false, true, true);
+    kani::cover!(e, "writer_sn = i64::MAX round-trips");
 }
 
 // @check props=C08 tier=thorough
@@ -428,13 +441,14 @@ fn c08_data() {
 // @bounds payload 0 / 8 bytes, <= 1 parameter of 4 bytes; unwind 68
 // @assume parameter id concrete (0x0070)
 // @enc rtps_messages::overall_structure::RtpsMessageWrite::new
-// @enc rtps_messages::overall_structure::RtpsMessageRead::try_from
+// @enc rtps_messages::submessages::data::DataSubmessage::try_from_bytes
 #[kani::proof]
 #[kani::unwind(68)]
 fn c08_data_other_shapes() {
-    data_trip::<56, 8>(true, false, false, false);
-    data_trip::<64, 8>(true, true, false, false);
-    data_trip::<44, 0>(false, true, false, false);
+    let a = data_trip::<56, 8>(true, false, false, false);
+    let b = data_trip::<64, 8>(true, true, false, false);
+    let c = data_trip::<44, 0>(false, true, false, false);
+    kani::cover!(a && b && c, "writer_sn = i64::MAX round-trips in all three shapes");
 }
 
 fn data_frag_trip<const N: usize, const P: usize>(qos: bool, k_flag: bool, n_flag: bool) {
@@ -488,7 +502,7 @@ fn data_frag_trip<const N: usize, const P: usize>(qos: bool, k_flag: bool, n_fla
 // @desc DATA_FRAG without inline QoS, key flag set, 4-byte payload: flags, ids, writerSN (full i64), fragmentStartingNum / dataSize (full u32), fragmentsInSubmessage / fragmentSize (full u16) and payload bytes round-trip; octetsToNextHeader = 32 + payload length
 // @bounds payload 4 symbolic bytes; message 60 bytes; unwind 64
 // @enc rtps_messages::overall_structure::RtpsMessageWrite::new
-// @enc rtps_messages::overall_structure::RtpsMessageRead::try_from
+// @enc rtps_messages::overall_structure::SubmessageHeaderRead::try_read_from_bytes
 // @enc rtps_messages::submessages::data_frag::DataFragSubmessage::try_from_bytes
 #[kani::proof]
 #[kani::unwind(64)]
@@ -501,7 +515,7 @@ fn c08_data_frag() {
 // @bounds payload 3 bytes, 1 parameter; message 71 bytes; unwind 76
 // @assume parameter id concrete (0x0070)
 // @enc rtps_messages::overall_structure::RtpsMessageWrite::new
-// @enc rtps_messages::overall_structure::RtpsMessageRead::try_from
+// @enc rtps_messages::overall_structure::SubmessageHeaderRead::try_read_from_bytes
 #[kani::proof]
 #[kani::unwind(76)]
 fn c08_data_frag_inline_qos() {
@@ -526,13 +540,13 @@ fn be_sn(b: &mut [u8], at: usize, sn: i64) {
 }
 
 // @check props=C08 tier=quick
-// @desc big-endian decode: a HEARTBEAT and an ACKNACK (numBits 33, symbolic bitmap words) written big-endian (flag E clear) by a 15-line harness-side writer decode, through the real parser, to the field values they were written from; the same ACKNACK value encoded by dust-dds (little-endian) therefore decodes to the same value from both byte orders
-// @bounds all field values symbolic (sequence numbers full i64, counts full i32, bitmap words full i32); flags octet concrete; messages 52 / 56 bytes; unwind 14 (12-byte prefix comparison)
+// @desc big-endian decode: a HEARTBEAT and an ACKNACK (numBits 33, symbolic bitmap words) written big-endian (flag E clear) by a 15-line harness-side writer decode, through the real parser, to the field values they were written from; the ACKNACK's set equals the value the real element decoder yields for the same content written little-endian
+// @bounds all field values symbolic (sequence numbers full i64, counts full i32, bitmap words full i32); flags octet concrete; messages 52 / 56 bytes; unwind 34 (32-byte bitmap comparison)
 // @enc rtps_messages::overall_structure::RtpsMessageRead::try_from
 // @enc rtps_messages::submessages::heartbeat::HeartbeatSubmessage::try_from_bytes
 // @enc rtps_messages::submessages::ack_nack::AckNackSubmessage::try_from_bytes
 #[kani::proof]
-#[kani::unwind(14)]
+#[kani::unwind(34)]
 fn c08_big_endian_decode() {
     let prefix: [u8; 12] = kani::any();
     let rid: [u8; 4] = kani::any();
@@ -598,10 +612,17 @@ fn c08_big_endian_decode() {
                 match first(&m) {
                     RtpsSubmessageReadKind::AckNack(d) => {
                         assert!(!d._final_flag() && d.count() == count && d.reader_sn_state().base() == first_sn, "C08: big-endian ACKNACK values");
-                        // member test through the real accessor: offset 32 is bit 31 of word 1
-                        let has32 = d.reader_sn_state().set().any(|x| x == first_sn.wrapping_add(32));
-                        if first_sn <= i64::MAX - 64 {
-                            assert!(has32 == (w1 < 0), "C08: big-endian ACKNACK bitmap bit order");
+                        // the same logical set written little-endian decodes to the same value
+                        let mut l = [0u8; 20];
+                        put(&mut l, 0, &((first_sn >> 32) as i32).to_le_bytes());
+                        put(&mut l, 4, &(first_sn as u32).to_le_bytes());
+                        put(&mut l, 8, &33u32.to_le_bytes());
+                        put(&mut l, 12, &w0.to_le_bytes());
+                        put(&mut l, 16, &w1.to_le_bytes());
+                        let mut lv = &l[..];
+                        match SequenceNumberSet::try_read_from_bytes(&mut lv, &Endianness::LittleEndian) {
+                            Ok(ls) => assert!(*d.reader_sn_state() == ls, "C08: ACKNACK set decoded from big-endian bytes differs from the little-endian decode of the same content"),
+                            Err(_) => assert!(false, "C08: little-endian set image rejected"),
                         }
                     }
                     _ => assert!(false, "C08: big-endian ACKNACK decoded as another kind"),
